@@ -36,6 +36,8 @@ CONSTANTS N,          \* participants 0..N-1
           BadFrom,    \* claimed signers of the injected bad partials
           Joint,      \* TRUE: the participants JointParts act (model check); FALSE: one focus participant (generator)
           JointParts,
+          Gap,        \* the distributed keys were generated with threshold t - Gap (Gap >= 0): the DSS threshold t
+                      \* is the CALLER's and may be stricter than the DKG's; it is t that counts
           MsgSet,     \* message classes of the session: subset of {"nil","empty","b1","text","b64","b4096"}
           FocusSet,   \* generator: the focus participant is one of these
           SelfRecv,   \* a participant may be handed its own partial (issued by a second object of its own)
@@ -70,6 +72,10 @@ ASSUME \A tt \in TSet : \A h \in Chal :
          /\ \A i \in Idx : Partial(tt, h, i) = Sh!Share(SPoly(tt, h), i)
          /\ \A S \in kSubset(tt, Idx) : Sh!LagrangeAt0(SPoly(tt, h), S) = (RPoly(tt)[1] + h * APoly(tt)[1]) % Q
 
+\* keys of a LOWER threshold: t partials are then more shares than the degree needs - still beta + h*alpha
+ASSUME \A tt \in TSet : (tt - Gap >= 1) => \A h \in Chal : \A S \in kSubset(tt, Idx) :
+         Sh!LagrangeAt0(SPoly(tt - Gap, h), S) = (RPoly(tt - Gap)[1] + h * APoly(tt - Gap)[1]) % Q
+
 -----------------------------------------------------------------------------
 Parts == IF Joint THEN JointParts ELSE {focus}
 
@@ -85,11 +91,11 @@ OtherVariants(m) == {"ext"} \cup (IF MsgLen(m) = 0 THEN {"b1"} ELSE {"empty", "f
                             \cup (IF MsgLen(m) >= 2 THEN {"prefix"} ELSE {})
 
 Init ==
-  /\ t \in TSet /\ msg \in MsgSet
+  /\ t \in TSet /\ msg \in MsgSet /\ t - Gap >= 1
   /\ focus \in (IF Joint THEN {0} ELSE FocusSet)
   /\ acc = [p \in Idx |-> {}] /\ signed = [p \in Idx |-> FALSE] /\ bad = [p \in Idx |-> 0]
   /\ delivered = [p \in Idx |-> {}]
-  /\ hist = <<[op |-> "new", n |-> N, t |-> t, p |-> focus, msg |-> msg]>>
+  /\ hist = <<[op |-> "new", n |-> N, t |-> t, tk |-> t - Gap, p |-> focus, msg |-> msg]>>
 
 Enough(p) == Cardinality(acc[p]) >= t
 
